@@ -285,3 +285,4 @@ class C20(Base):
 
 
 P = C20()
+P.RULE = P.RULE + " Every dom case is also run 40 times on two threads at once (the case's style and the opposite one). Through a bundle: one and two text elements, a select on a missing argument, term/message references, a two-line pattern, a lone string literal, text around four references that do not resolve; the bundle is built with four configuration histories of the same transform (formatter installed and removed before/after, transform replaced) which must answer alike."
